@@ -182,10 +182,18 @@ def run(ctx, out, tier):
             tsamples.append("%s: range<-(start_tag.start, start_tag.end)" % name)
     out.inst("C10.tag", n_tag, 16, tsamples[:4], note="4 validators x {start,end} x {line,character}")
 
-    # ------------------------------------------------------------------ start tag position inside a multi-line comment
+    check_tagpos(ctx, out, "C10.tagpos")
+    from rules.C03 import check_rebase
+    check_rebase(ctx, out, rule="C10.rebase")
+    check_col0_guard(ctx, out)
+    return meta()
+
+
+def check_tagpos(ctx, out, rule):
+    """A tag's position inside its comment: line = comment start line + lines before the tag; column
+    on a continuation line = offset - position of the LAST newline before it."""
     n_tp = 0
     f = ctx.facts
-    # the function that turns an offset inside the comment text into a Position
     cands = [b for b in f.bodies.values() if b.promoted is None and b.local_ty(0) == "blockwatch::Position"
              and any("Comment" in b.local_ty(i) for i in range(1, b.argc + 1)) and b.id in ctx.reach]
     for b in cands:
@@ -195,18 +203,63 @@ def run(ctx, out, tier):
         if P.has_call(col, r"<impl str>::rfind$") and not any(l[0] == "call" and re.search(r"<impl str>::(find|split_once|split|splitn|lines)$", l[1]) for l in col):
             n_tp += 1
         else:
-            out.viol("C10.tagpos", "C10.tagpos|column", where,
+            out.viol(rule, "%s|column" % rule, where,
                      "the column of a tag on a continuation line of its comment derives from [%s]; expected the offset minus the position of the LAST newline before it (`rfind('\\n')`)" % util.origins_text({l for l in col if l[0] == "call"}, 6))
         if P.has_path(col, "position_range", "start", "character") and P.has_path(line, "position_range", "start", "line"):
             n_tp += 1
         else:
-            out.viol("C10.tagpos", "C10.tagpos|base", where, "the tag position is not based on the comment's own start position")
+            out.viol(rule, "%s|base" % rule, where, "the tag position is not based on the comment's own start position")
         if P.has_call(line, r"<impl str>::lines$|Iterator>?::count$") or P.has_call(line, r"matches|bytes"):
             n_tp += 1
         else:
-            out.viol("C10.tagpos", "C10.tagpos|line", where, "the tag's line does not derive from counting the lines of the comment text before the tag")
-    out.inst("C10.tagpos", n_tp, 3, [b.id for b in cands])
-    return meta()
+            out.viol(rule, "%s|line" % rule, where, "the tag's line does not derive from counting the lines of the comment text before the tag")
+    out.inst(rule, n_tp, 3, [b.id for b in cands])
+
+
+def check_col0_guard(ctx, out, rule="C10.col0guard"):
+    """The content's start column is added on content line 0 only, and the test is on the content
+    line index itself (not on a line number of the tag): every read of `content_position_range.start
+    .character` in a (line, column) helper taking a line index is control-dependent on `index == 0`
+    being true, and on nothing else."""
+    n = 0
+    cands = []
+    for b in ctx.reachable_bodies():
+        if b.promoted is not None or not b.local_ty(0).startswith("(usize, usize)"):
+            continue
+        if not any(b.local_ty(i) == "usize" for i in range(1, b.argc + 1)):
+            continue
+        E = ctx.expr(b)
+        for bi, j, s in b.assigns():
+            rv = s["rv"]
+            p = None
+            if rv["k"] == "use":
+                p = util.op_place(rv["op"])
+            if p is None:
+                continue
+            fs = [x["f"] for x in p["p"] if isinstance(x, dict) and "f" in x]
+            if fs[-1:] != ["character"]:
+                continue
+            src = render(E.place(p), 300) if hasattr(E, "place") else ""
+            labs = ctx.prov.read_operand(b, rv["op"])
+            if not (P.has_path(labs, "content_position_range", "start", "character") or "content_position_range" in src):
+                continue
+            cands.append(b.id)
+            gs = util.guards(ctx, b, bi)
+            good = False
+            for br, vals, e in gs:
+                txt = render(e, 300)
+                idx = e[0] == "bin" and e[1] in ("Eq", "Ne") and {x[0] for x in e[2:4]} == {"param", "const"} and ("const", 0) in e[2:4] \
+                    and all(b.local_ty(x[1]) == "usize" for x in e[2:4] if x[0] == "param")
+                if idx and ((e[1] == "Eq" and 0 not in vals) or (e[1] == "Ne" and vals == {0})):
+                    good = True
+                else:
+                    out.viol(rule, "%s|extra-test" % rule, ctx.where(b, s["span"]),
+                             "the content's start column is applied under `%s` (arm %s): it is content line index 0, and only that line, that starts at that column, wherever the start tag's comment ends" % (txt[:160], sorted(map(str, vals))))
+            if good:
+                n += 1
+            else:
+                out.viol(rule, "%s|guard" % rule, ctx.where(b, s["span"]), "the content's start column is not applied exactly when the content line index is 0")
+    out.inst(rule, n, 1, cands)
 
 
 def meta():
